@@ -21,6 +21,8 @@ structure Machine (σ : Type) where
   describe : σ → Nat → String
   /-- whether the register value reported at this hook is compared -/
   cmpVal   : String → Bool
+  /-- a hook point the harness recorded without yielding there (`chk t tag v`): `some why` = the model is not where the code is -/
+  check    : σ → Nat → String → Nat → Option String := fun _ _ _ _ => none
 
 structure AnyMachine where
   σ : Type
@@ -37,6 +39,7 @@ def ack (a : AnyMachine) (t : Nat) : AnyMachine := { a with s := a.m.ack a.s t }
 def observe (a : AnyMachine) (k : String) := a.m.observe a.s k
 def describe (a : AnyMachine) (t : Nat) := a.m.describe a.s t
 def cmpVal (a : AnyMachine) (tag : String) := a.m.cmpVal tag
+def check (a : AnyMachine) (t : Nat) (tag : String) (v : Nat) := a.m.check a.s t tag v
 end AnyMachine
 
 def showList (l : List Nat) : String := " ".intercalate (l.map toString)
@@ -267,7 +270,7 @@ def multiMachine : Machine Multi.St where
     | "drop", [id]   => if idle && s.live.contains (nat id) then some (Multi.apply s (.drop t (nat id))) else none
     | "send", [ev]   => if idle then some (Multi.apply s (.send t (nat ev))) else none
     | "poll", [id]   => if idle then some (Multi.apply s (.poll t (nat id))) else none
-    | "release", [ev] => some (Multi.apply s (.release (nat ev)))
+    | "release", [ev] => if s.flavor == .ogreArc && s.refs (nat ev) == 0 then none else some (Multi.apply s (.release (nat ev)))
     | "cancel", [id]  => some (Multi.apply s (.cancel (nat id)))
     | _, _ => none
   tag s t := match Multi.tagOf s.MAX (s.thr t) with
@@ -285,6 +288,12 @@ def multiMachine : Machine Multi.St where
     | _ => none
   describe s t := reprStr (s.thr t) ++ s!" used={s.used} vacant={s.vacant} count={s.count} slock={s.slock}"
   cmpVal tag := tag != "sync.spin" && tag != "sm.sync.lock" && tag != "sm.sync.peek" && tag != "sm.create.count" && tag != "sm.create.vacant" && tag != "sm.running"
+  -- `oa.inc` (ogre_arc `increment_references(count)`): right after the count was read, before the first entry is visited
+  check s t tag v := if tag != "oa.inc" then none else
+    match s.thr t with
+    | .fOgre _ 0 cnt => if cnt == v then none else some s!"the code raises the reference counter by {v}, the model by {cnt}"
+    | .done .unit => if v == 0 then none else some s!"the code raises the reference counter by {v} after the fan-out loop; the model does it before visiting the first listener"
+    | l => some s!"the code raises the reference counter (by {v}) while the model's send is at {reprStr l}: in the model this happens right after the listener count was read, before any copy is handed out"
 
 /-! ### M9 MmapLog -/
 open Mutiny in
